@@ -40,6 +40,7 @@ def run_k(ctx, kres):
     v += k_suite(ctx, kres, "K08-derive-matrix", [Trace("derive-matrix", gen2.c02_derive_matrix(ctx.seed))], in_projection)
     # CKA_TRUSTED = true by nobody / the user / the SO, through create, generate, copy and set, on every class that has the attribute
     def trusted_proj(m): return in_projection(m) or (m["op"] in ("getattr", "genkey") and m["cat"] in ("rvclass", "vals", "nums"))
+    v += k_suite(ctx, kres, "K08-derive-asym-matrix", [Trace("derive-asym-matrix", gen2.c08_derive_asym_matrix(ctx.seed))], in_projection)
     v += k_suite(ctx, kres, "K08-trusted-matrix", [Trace("trusted-matrix", gen2.c08_trusted_matrix(ctx.seed))], trusted_proj)
     return v
 
